@@ -132,7 +132,7 @@ func newHarness(minKeys, minSize, force uint64) *harness {
 		if eff {
 			return nil
 		}
-		if o.exist != nil {
+		if o.exist != nil && !closedAtStart { // a closed committer answers "ttl manager is closed" before any RPC
 			return errors.WithStack(&tikverr.ErrKeyExist{AlreadyExist: &kvrpcpb.AlreadyExist{Key: o.exist}})
 		}
 		return errors.New("scripted flush failure")
@@ -210,6 +210,15 @@ func (h *harness) checkExist(err error) {
 		verdict = "fail"
 	}
 	h.plines = append(h.plines, fmt.Sprintf("P\texisterr\tkey=%x expected=%x got=%x\t%s", ke.GetKey(), exp, got, verdict))
+}
+
+// an ErrKeyExist is reported with the value it carries (absent and empty are not distinguished)
+func existField(err error) string {
+	var ke *tikverr.ErrKeyExist
+	if err == nil || !stderrors.As(err, &ke) {
+		return ""
+	}
+	return "\tX:" + hx(ke.Value)
 }
 
 func settle() {
@@ -329,7 +338,7 @@ func (h *harness) exec(f []string) string {
 		if r.t {
 			t = "1"
 		}
-		return t + "\t" + status + "\t" + started
+		return t + "\t" + status + "\t" + started + existField(r.err)
 	case "complete":
 		h.complete(f[1] == "1", true)
 		return "ok"
@@ -352,7 +361,7 @@ func (h *harness) exec(f []string) string {
 		}
 		if err := <-done; err != nil {
 			h.checkExist(err)
-			return "err"
+			return "err" + existField(err)
 		}
 		return "ok"
 	case "staging":
@@ -441,9 +450,6 @@ func main() {
 			tag := "OP"
 			if f[0] == "set" && strings.HasPrefix(r, "errlarge") {
 				tag = "X" // refused by the entry size limit: no effect, not an op of the model
-			}
-			if f[0] == "completeexist" {
-				f = []string{"complete", "0"} // for the model an ErrKeyExist is a failed flush
 			}
 			fmt.Fprintf(out, "%s\t%s\t=>\t%s\n", tag, strings.Join(f, "\t"), r)
 			for _, pl := range h.plines {
